@@ -21,6 +21,7 @@ Stage 3  the malformed stream through the WHOLE real pipeline (harness.app.App, 
          (Gen.Schemas.handlerSchemas) explains the answer: a body that parses and is accepted (2xx/409) validates
          against it, a "JSON does not validate" 400 means it does not.
 """
+from harness import ppool
 import base64
 import json
 import os
@@ -1295,7 +1296,7 @@ def stream(chk, total, nproc=16):
     per = max(len(names), total // nproc)
     jobs = [(i, chk.rng.getrandbits(48), per, names[i % len(names):] + names[:i % len(names)]) for i in range(nproc)]
     ctx = multiprocessing.get_context('fork')
-    with ctx.Pool(nproc) as pool:
+    with ppool.Pool(ctx, nproc) as pool:
         results = pool.map(worker, jobs, chunksize=1)
     distinct = set()
     xdocs = []
